@@ -407,7 +407,13 @@ impl ExpressionParser {
                             Operator::Assign => 16,
                             Operator::AssignUndefined => 16,
                         };
-                        if prio <= best_idx_prio {
+                        // Binary operators of equal priority group from left to right (fold the first one first);
+                        // the prefix '!' and the assignments group from right to left (fold the last one first).
+                        let right_to_left = matches!(
+                            operator,
+                            Operator::Not | Operator::Assign | Operator::AssignUndefined
+                        );
+                        if prio < best_idx_prio || (right_to_left && prio == best_idx_prio) {
                             best_idx = si;
                             best_idx_prio = prio;
                         }
